@@ -103,6 +103,8 @@ package sonic
 
 //@ func (*packetConn).getReadHandler$1
 //@   prop C01
+//@   // the handler itself reports only the poller's error; success is reported by the operation it then attempts
+//@   assert call cb: err != nil && arg0 == err
 //@   requires c != nil && pcInv(c) && cb != nil && !pcArmedR(c)
 //@   consumes cb unless pcArmedR(c)
 
@@ -140,6 +142,8 @@ package sonic
 
 //@ func (*packetConn).getWriteHandler$1
 //@   prop C01
+//@   // the handler itself reports only the poller's error; success is reported by the operation it then attempts
+//@   assert call cb: err != nil && arg0 == err
 //@   requires c != nil && pcInv(c) && cb != nil && !pcArmedW(c)
 //@   consumes cb unless pcArmedW(c)
 
